@@ -95,6 +95,9 @@ theorem ip_reuse_example :
 /-- label edit on a ready pod selected by the service: `recomputeServiceForPod` rebuilds the slices -/
 def p1v2 : Pod := pod "p1" "10.0.0.1" true [("app", "a"), ("version", "v2")] "sa1" ""
 
+example : AllGood {} [.svc svcA, .pod p1, .slice s1, .pod p1v2] := by decide +kernel
+example : AllGood {} [.pod p1, .slice s1, .svc svcA, .pod p1v2] := by decide +kernel
+
 theorem label_edit_example :
     viewAfter [.svc svcA, .pod p1, .slice s1, .pod p1v2] = viewCold [.svc svcA, .pod p1v2, .slice s1] ∧
     viewAfter [.svc svcA, .pod p1, .pod p1v2, .slice s1] = viewCold [.svc svcA, .pod p1v2, .slice s1] := by
